@@ -1169,3 +1169,28 @@ M("M84", "DepManager: an edge to an already tracked dependency is recorded but n
                 .insert(dependency.clone(), HashSet::from([depender.clone()]));
             *dependency_count += 1;""")],
   {"C02": ["R02.8"]})
+
+# ------------------------------------------------------------------ R01.6 pending-newline skeleton
+M("M85", "pending newline is set even when the directive had a tail line (doubles a separator / joins wrongly)",
+  [(PP, "                    add_newline_before_next_output = !has_tail;", "                    add_newline_before_next_output = true;\n                    let _ = has_tail;")],
+  {"C01": ["R01.6"]})
+M("M86", "separator written unconditionally before every chunk",
+  [(PP, """                    if add_newline_before_next_output {
+                        self.context.write_output(self.context.line_ending)?;
+                    }""", """                    if add_newline_before_next_output || has_tail {
+                        self.context.write_output(self.context.line_ending)?;
+                    }""")],
+  {"C01": ["R01.6"]})
+M("M87", "has_tail reported although the terminating line was not re-queued",
+  [(PP, """                    let has_tail = if line.is_some() {
+                        self.execute_tail_line = line;
+                        true
+                    } else {
+                        false
+                    };""", """                    let has_tail = if line.is_some() {
+                        self.execute_tail_line = line;
+                        true
+                    } else {
+                        directive_output.is_none()
+                    };""")],
+  {"C01": ["R01.6"]})
